@@ -179,6 +179,9 @@ func (req *GetBlockRequest) Validate() error {
 
 func parseGetBlockRequest(raw *json.RawMessage) (*GetBlockRequest, error) {
 	var params []any
+	if raw == nil {
+		return nil, fmt.Errorf("params are missing")
+	}
 	if err := fasterJson.Unmarshal(*raw, &params); err != nil {
 		return nil, fmt.Errorf("failed to unmarshal params: %w", err)
 	}
@@ -323,6 +326,9 @@ func isAnyEncodingOf(s solana.EncodingType, anyOf ...solana.EncodingType) bool {
 
 func parseGetTransactionRequest(raw *json.RawMessage) (*GetTransactionRequest, error) {
 	var params []any
+	if raw == nil {
+		return nil, fmt.Errorf("params are missing")
+	}
 	if err := fasterJson.Unmarshal(*raw, &params); err != nil {
 		return nil, fmt.Errorf("failed to unmarshal params: %w", err)
 	}
@@ -668,6 +674,9 @@ func encodeBytesResponseBasedOnWantedEncoding(
 
 func parseGetBlockTimeRequest(raw *json.RawMessage) (uint64, error) {
 	var params []any
+	if raw == nil {
+		return 0, fmt.Errorf("params are missing")
+	}
 	if err := fasterJson.Unmarshal(*raw, &params); err != nil {
 		return 0, fmt.Errorf("failed to unmarshal params: %w", err)
 	}
